@@ -40,6 +40,12 @@ def apathCmp (a b : Str) : Ordering :=
 
 def apathLt (a b : Str) : Bool := apathCmp a b == .lt
 
+/-- `a <= b` under `Apath::cmp`. -/
+def apathLe (a b : Str) : Bool := apathCmp a b != .gt
+
+/-- `a <= b` under byte-wise `str::cmp`. -/
+def strLe (a b : Str) : Bool := compare a b != .gt
+
 /-- `Apath::is_valid`. -/
 def isValid (a : Str) : Bool :=
   match a with
